@@ -17,7 +17,7 @@ package rules
 // access to the next receiver (Context holds no reference to it).
 //@ iface rules.EventRule.*
 //@   requires ctx != nil
-//@   modifies obj(ctx), memall(contextStackEntry), memall(byte), maps, alloc, lastRuleCall
+//@   modifies obj(ctx), memall(contextStackEntry), memall(byte), maps, alloc, lastRuleCall, lastRuleKey
 //@   ensures ctx.objectCount == old(ctx.objectCount)
 //@   may_panic
 // (the object counter is written only by NotifyNewObject and Reset: structural check below)
@@ -137,7 +137,7 @@ package rules
 //@ ghost lastRuleKey any
 //@ macro PASS(r)
 //@   requires r.receiver != nil && r.context.config != nil && r.context.CurrentEntry.Rule != nil
-//@   modifies obj(r.context), memall(contextStackEntry), memall(byte), maps, alloc, lastRuleCall
+//@   modifies obj(r.context), memall(contextStackEntry), memall(byte), maps, alloc, lastRuleCall, lastRuleKey
 //@   may_panic
 
 //@ func (*RulesEventReceiver).OnBeginDocument
@@ -183,21 +183,18 @@ package rules
 //@ func (*RulesEventReceiver).OnPositiveInt
 //@   use PASS(_this)
 //@   ensures _this.context.objectCount == old(_this.context.objectCount) + 1
-//@   modifies lastRuleKey
 //@   ensures typeIs(lastRuleKey, "uint64") && payload(lastRuleKey, "uint64") == value
 //@   forwards OnPositiveInt(value)
 
 //@ func (*RulesEventReceiver).OnNegativeInt
 //@   use PASS(_this)
 //@   ensures _this.context.objectCount == old(_this.context.objectCount) + 1
-//@   modifies lastRuleKey
 //@   ensures typeIs(lastRuleKey, "negint") && uint64(payload(lastRuleKey, "negint")) == value
 //@   forwards OnNegativeInt(value)
 
 //@ func (*RulesEventReceiver).OnInt
 //@   use PASS(_this)
 //@   ensures _this.context.objectCount == old(_this.context.objectCount) + 1
-//@   modifies lastRuleKey
 //@   ensures typeIs(lastRuleKey, "int64") && payload(lastRuleKey, "int64") == value
 //@   forwards OnInt(value)
 
@@ -311,7 +308,6 @@ package rules
 //@ func (*RulesEventReceiver).OnBigInt
 //@   use PASS(_this)
 //@   ensures _this.context.objectCount == old(_this.context.objectCount) + 1
-//@   modifies lastRuleKey
 //@   ensures value != nil ==> typeIs(lastRuleKey, "*big.Int") && payload(lastRuleKey, "*big.Int") == value
 //@   forwards value == nil : OnNull()
 //@   forwards !(value == nil) : OnBigInt(value)
